@@ -50,6 +50,31 @@ pub(crate) fn utf8_range_to_position(text: &str, range: Range<usize>) -> lsp_typ
     lsp_types::Range { start, end }
 }
 
+/// Verification hooks: public wrappers around the conversion functions.
+#[cfg(oxlip_verif)]
+pub mod verif {
+    pub fn position_to_utf8(text: &str, line: u32, character: u32) -> usize {
+        super::position_to_utf8(text, lsp_types::Position { line, character })
+    }
+
+    pub fn utf8_to_position(text: &str, index: usize) -> (u32, u32) {
+        let p = super::utf8_to_position(text, index);
+        (p.line, p.character)
+    }
+
+    pub fn utf8_range_to_position(
+        text: &str,
+        start: usize,
+        end: usize,
+    ) -> ((u32, u32), (u32, u32)) {
+        let r = super::utf8_range_to_position(text, start..end);
+        (
+            (r.start.line, r.start.character),
+            (r.end.line, r.end.character),
+        )
+    }
+}
+
 #[test]
 fn test_position_to_utf8() {
     assert_eq!('😉'.len_utf8(), 4);
